@@ -61,6 +61,14 @@ SQL_EXPRS = [
     'COALESCE("a", "b")', 'COALESCE("s", "u")', 'IFNULL("a", 0)', 'COALESCE("a", "b", 3)',
     'CASE WHEN "a" > 0 THEN "a" ELSE "b" END', 'CASE WHEN "a" > 0 THEN "s" END', 'CASE "a" WHEN 1 THEN "s" WHEN 2 THEN "u" ELSE \'b\' END',
     'CAST("f" AS INTEGER)', 'CAST("a" = 1 AS INTEGER)', 'NULLIF("a", "b")',
+    # what the ORMs emit: REAL division (SQLAlchemy's div), NULL-coalescing concat (Django), nested trims, parameters
+    '"a" / ("b" + 0.0)', '"a" / ("b" + 0.0) = 1', '("a" + 1) / (2 + 0.0) * "b" > 1', '"a" / ("b" + 0.0) + 1 <= "b"',
+    '"a" / (2 + 0.0) - "b" / (3 + 0.0)', 'CAST("a" / ("b" + 0.0) AS INTEGER)', '("a" / ("b" + 0.0)) % 2', '- ("a" / (2 + 0.0))',
+    '7 / ("a" / ("b" + 0.0) + 0.0)', '"a" / ("b" + 0.0) = "b" / ("a" + 0.0)', '"a" + 0.0', '"a" * 1.5 > "b"',
+    "COALESCE(\"s\", '') || COALESCE(\"u\", '')", "(COALESCE(\"s\", '') || COALESCE('a', '')) = \"u\"", 'LTRIM(RTRIM("s"))',
+    "(\"s\" LIKE \"u\" || '%') = 1", "1 = (\"s\" NOT LIKE '%' || \"u\")", "(\"s\" LIKE '%' || \"u\" || '%') = \"f\"",
+    '(INSTR("s", "u") - 1) + 1 = "a"', 'SUBSTR("s", ("a" + 1), "b") = "u"', '("a" = 1) = ("b" = 2)', '"f" = ("a" = 1)',
+    'NOT ("a" = 1 AND NOT ("b" IS NULL))', '"f" <> 1', '"a" IN (1, 2)',
     # number / text mixtures (what mis-grouped SQL produces)
     '"a" = "s"', '1 = "s"', '"s" != 1', '("a" = "s") LIKE "u"', '"f" LIKE "u"', '"a" LIKE "u"', "1 = \"s\" LIKE '%a%'",
     "\"s\" LIKE '%a%' = 1", '"a" * "b" LIKE "u"',
@@ -114,6 +122,9 @@ def eval_value(v, pairs) -> Any:
         return None
     if v.kind == "int":
         return _concrete(v.val, pairs).as_signed_long()
+    if v.kind == "real":
+        from fractions import Fraction
+        return Fraction(_concrete(v.num, pairs).as_signed_long(), _concrete(v.den, pairs).as_signed_long())
     if v.kind == "bool":
         return bool(z3.is_true(_concrete(v.val, pairs)))
     n = _concrete(v.len, pairs).as_long()
@@ -133,6 +144,8 @@ def _result_differs(v, py) -> Any:
         return z3.Not(v.null)
     if v.kind == "int":
         return z3.Or(v.null, v.val != int(py))
+    if v.kind == "real":
+        return z3.Or(v.null, v.num * py.denominator != v.den * py.numerator)
     if v.kind == "bool":
         return z3.Or(v.null, v.val != bool(py))
     conds = [v.null, v.len != len(py)]
@@ -172,6 +185,15 @@ def _norm_sqlite(x):
     return x
 
 
+def _same_result(want, got) -> bool:
+    from fractions import Fraction
+    if isinstance(want, Fraction):
+        if got is None or isinstance(got, str):
+            return False
+        return abs(float(want) - float(got)) < 1e-9
+    return want == got
+
+
 # ---------------------------------------------------------------------- tasks
 def validate_sql_expr(expr: str, seed: int = 0, cap: int = 160) -> dict:
     rng = random.Random(f"{seed}:{expr}")
@@ -207,8 +229,8 @@ def validate_sql_expr(expr: str, seed: int = 0, cap: int = 160) -> dict:
         except sqlite3.Error as e:
             got = f"sqlite3 error: {e}"
         out["rows"] += 1
-        if got != want and len(out["mismatches"]) < 5:
-            out["mismatches"].append({"kind": "sqlite-model", "row": row, "model": want, "sqlite3": got})
+        if not _same_result(want, got) and len(out["mismatches"]) < 5:
+            out["mismatches"].append({"kind": "sqlite-model", "row": row, "model": str(want), "sqlite3": got})
     conn.close()
     out["ops"] = model.used
     return out
